@@ -497,3 +497,38 @@ def run(repo: Repo, rep: Report, tier: str) -> None:
         rep.check(want == got, "C15-R17", "lower_mem_decl: the re-declaration probe uses the creation node's id", "".join(got) if want == got else
                   f"probes `{''.join(got)}`, the node is stored under `{''.join(want)}`: the probe never matches, every expansion after the first shares the first one's cell", lmd.loc(p17))
     rep.floor("C15-R17", "re-declaration probes in lower_mem_decl", n17, 1)
+
+    # ---------------- R18 --------------------------------------------------------------
+    _borrow15(repo, rep, "C01", "C01-R10", "C15-R18", "an int argument (or a constant bound to a Signal parameter) reaches `cond : param` in the body as a literal: the gate then outputs that "
+              "literal, as the substituted body `cond : 7` does — a gate left in copy-from-input mode copies a wire that carries nothing", floor=2)
+
+    # ---------------- R19 --------------------------------------------------------------
+    rep.rule("C15-R19", "a local declaration is typed by its own symbol or by none: the lowering finds symbols by name in the analyzer's global table, and a function or loop body "
+             "is lowered after its scope is gone — wherever lower_decl_stmt takes a channel from a looked-up symbol (`<symbol>.value_type`), the symbol was first checked to be "
+             "the one this very statement defined (`defined_at is stmt`); otherwise `Signal t = 5;` in a function body is emitted on the channel of the caller's `t`")
+    lds = repo.func("StatementLowerer.lower_decl_stmt")
+    pm19 = __import__("fv.core", fromlist=["parents_map"]).parents_map(lds.node)
+    g19 = CFG(lds.node)
+    decl_p = lds.params[1] if lds.params[0] == "self" else lds.params[0]
+    looks = [n for n in walk_local(lds.node) if isinstance(n, ast.Assign) and isinstance(n.targets[0], ast.Name) and isinstance(n.value, ast.Call) and call_name(n.value) == "lookup"
+             and "symbol_table" in norm(n.value.func) and n.value.args and norm(n.value.args[0]) == f"{decl_p}.name"]
+    n19 = 0
+    for lk in looks:
+        x = lk.targets[0].id
+        resets = []
+        for iff in [n for n in walk_local(lds.node) if isinstance(n, ast.If)]:
+            conj = list(iff.test.values) if isinstance(iff.test, ast.BoolOp) and isinstance(iff.test.op, ast.And) else [iff.test]
+            if any(norm(c) == f"{x}.defined_at is not {decl_p}" for c in conj) and any(isinstance(b, ast.Assign) and norm(b.targets[0]) == x and norm(b.value) == "None" for b in iff.body):
+                resets.append(iff)
+        for use in [n for n in walk_local(lds.node) if isinstance(n, ast.Attribute) and n.attr == "value_type" and isinstance(n.value, ast.Name) and n.value.id == x]:
+            st = use
+            while not isinstance(st, ast.stmt):
+                st = pm19[st]
+            if not g19.dominates(lk, st):
+                continue
+            n19 += 1
+            own = any(pol and g == f"{x}.defined_at is {decl_p}" for g, pol in [(norm(t), p) for t, p in __import__("fv.sites", fromlist=["guard_chain"]).guard_chain(lds, st, pm19)])
+            dom = any(g19.dominates(r, st) and g19.dominates(lk, r) for r in resets)
+            rep.check(own or dom, "C15-R19", f"lower_decl_stmt: symbol use #{n19} is the statement's own symbol", "identity with the declaring statement is established first" if (own or dom) else
+                      f"`{x}.value_type` of a symbol found by name only: inside a function or loop body the global table holds the caller's variable of that name", lds.loc(use))
+    rep.floor("C15-R19", "uses of a looked-up symbol's type in lower_decl_stmt", n19, 2)
